@@ -8,8 +8,14 @@ import (
 // ---- the case: a history of ops (self-contained; byte strings are hex) ----
 
 type Case struct {
-	Shards int  `json:"shards"`
-	Ops    []Op `json:"ops"`
+	Shards int    `json:"shards"`
+	Store  string `json:"store,omitempty"` // "" / "local": in-memory store; "k8s": API-backed store (write-through) over a fake API
+	Ops    []Op   `json:"ops"`
+}
+
+type Fault struct {
+	Name string `json:"name"` // hex: condition name
+	Kind string `json:"kind"` // transient | lost
 }
 
 type RItem struct {
@@ -46,6 +52,10 @@ type Op struct {
 	S       int       `json:"s,omitempty"`
 	B       bool      `json:"b,omitempty"`
 	Schemas []SchemaJ `json:"schemas,omitempty"`
+	FC      string    `json:"fc,omitempty"`     // burst: flow control (hex)
+	Toks    []int32   `json:"toks,omitempty"`   // burst: tokens of the parallel acquires; request ids rid+1 … rid+n
+	Faults  []Fault   `json:"faults,omitempty"` // faults: the API deletes of these condition names fail from now on (replaces the previous set)
+	Name    string    `json:"name,omitempty"`   // apiDelete: condition name (hex)
 }
 
 // ---- observed / model state ----
@@ -131,6 +141,7 @@ type StateJ struct {
 	Fcs      []FCJ      `json:"fcs"`
 	Listed   []ListedJ  `json:"listed"`
 	Locks    []string   `json:"locks"`
+	Failing  []string   `json:"failing"`
 }
 
 // canon sorts everything that is a map or a set on the Go side (and has no order in the model either) and
@@ -161,6 +172,10 @@ func (s *StateJ) canon() {
 		s.Locks = []string{}
 	}
 	sort.Strings(s.Locks)
+	if s.Failing == nil {
+		s.Failing = []string{}
+	}
+	sort.Strings(s.Failing)
 	sort.Slice(s.Hb, func(i, j int) bool { return s.Hb[i].I < s.Hb[j].I })
 	sort.Ints(s.Leaders)
 	sort.Ints(s.Shards)
@@ -235,4 +250,5 @@ type OutJ struct {
 	E     string   `json:"e,omitempty"`
 	Label string   `json:"label,omitempty"`
 	Rs    []AcqRes `json:"rs,omitempty"`
+	St    *[2]int64 `json:"-"` // burst: the (count, request id) the instance ended with on the real flow control (oracle, not an answer)
 }
